@@ -9,7 +9,19 @@
     from any dict), `ndl_continue` (`ndl.ndl` from any labelled matrix, new
     labels appended, within the 32-bit limits), the hand-over conversions
     `dict_from_data_array`, `data_array_from_dict`, `dict_roundtrip`,
-    `abs_extend`; two calls: `dict_chain_two`, `ndl_chain_two`;
+    `abs_extend`; two calls: `dict_chain_two`, `ndl_chain_two` (restated: the
+    earlier version quantified `∀ w, Fits32With w ys`, which NO `ys` satisfies —
+    it was vacuous; now one a-priori condition `Fits32 (xs ++ ys)`);
+  * every statement about `ndl.ndl` is about the CALL `ndlCall` (what the driver
+    evaluates): an `ndl.ndl` part with ZERO events raises `IOError`
+    (`ndl_call_empty_part_raises`, `chain_empty_ndl_part_raises`), so the
+    success theorems carry "every `ndl.ndl` part has an event" (`hne`);
+  * chunking arguments: `CfgOK` = `2 ≤ events_per_temporary_file < 2³²`,
+    `1 ≤ n_outcomes_per_job`, OpenMP: `#outcome labels + n_outcomes_per_job < 2³²`
+    (outside: `ValueError` / `OverflowError` / `ZeroDivisionError`, see C01);
+  * `weights=` with DUPLICATE labels is outside the model (it reads a label at
+    its first position, Python's `OrderedDict` at its last): `ndl_continue`
+    carries `Nodup` on the given labels; in chains it is an invariant;
   * about the MODELS, chains of ARBITRARY length with a DIFFERENT learner per
     part (PyndlProofs/Chain.lean; induction over the list of parts):
       - `chainRun` models harness/impl.py `op_chain`: the state between calls
@@ -20,7 +32,8 @@
         handed to `ndl.ndl` goes through `ndl.data_array` (`lwFromDict`, as
         the harness does; `ndl.ndl` itself only accepts a DataArray);
       - `chain_any_length`: every part accepted by its learner's duplicate
-        policy, legal chunk sizes for the `ndl.ndl` parts, and ONE a-priori
+        policy, legal chunk sizes for the `ndl.ndl` parts (and an event in each
+        of them), and ONE a-priori
         size condition on the inputs — the whole file fits the 32-bit limits
         (`Fits32 (allEvents parts)`: number of events, of distinct cue names, of
         distinct outcome names, cues/outcomes per event, all < 2^32) — imply
@@ -52,7 +65,9 @@
   * partial: the label ORDER `ndl.ndl` produces for new names (a Python `set`
     difference, hash order) is modelled as first occurrence; the theorems
     read results through their labels, so they do not depend on it
-    (`abs_extend` holds for any order).
+    (`abs_extend` holds for any order; from scratch the independence is a
+    theorem, C01 `ndl_label_order_irrelevant`; for the continued call the
+    generic statement `ndlCore_spec` holds for any merged label lists).
 -/
 import PyndlProofs.Continue
 import PyndlProofs.Dict
@@ -61,6 +76,8 @@ import PyndlProofs.DictArray
 import PyndlProofs.Chain
 import PyndlProofs.NdlCall
 import PyndlModel.Generated
+
+set_option linter.unusedVariables false
 
 namespace Pyndl.C03
 open Pyndl List
@@ -79,7 +96,8 @@ theorem chain_eq_single (α : ι → R) (β₁ β₂ lam : R) (W : κ → ι →
     pieces.foldl (rwLearn α β₁ β₂ lam) W = rwLearn α β₁ β₂ lam W pieces.flatten :=
   chain_rwLearn α β₁ β₂ lam W pieces
 
-/-- `dict_ndl` continued from ANY weight dict is the specification continued
+/-- (the same statement as C01 `dictNdl_eq_spec`, read as a continuation)
+    `dict_ndl` continued from ANY weight dict is the specification continued
     from the function that dict denotes (so a chain of `dict_ndl` calls through
     `weights=` is a chain of the specification) -/
 theorem dict_continue (p : DupPolicy) (α : ι → R) (β₁ β₂ lam : R) (W₀ : WDict ι κ R)
@@ -123,73 +141,95 @@ theorem abs_extend (w : LW R) (cuesNew outsNew : List String) (o c : String) :
 /-- **`ndl.ndl` continued from given weights = the specification continued from
     the weight function they denote** — whole model (count, merged id maps with
     new labels appended, zero extension, chunks, kernels per part, labels), every
-    method, chunk sizes, policy-accepted events, within the 32-bit limits. -/
-theorem ndl_continue (cfg : NdlCfg) (hper : 2 ≤ cfg.perFile) (hjob : 1 ≤ cfg.perJob) (alpha β₁ β₂ lam : R)
-    (w : LW R) (es es' : List (Event String String))
+    method, legal chunking arguments (`CfgOK`, w.r.t. the merged outcome labels),
+    policy-accepted events, within the 32-bit limits.
+    `hndc`, `hndo`: the given labels are duplicate free.  The PROOF does not use
+    them (the model reads a label at its first position, consistently); they
+    delimit where model = code: `ndl.ndl` builds `OrderedDict((label, ii) …)`
+    (ndl.py:183-184), which keeps the LAST position of a repeated label. -/
+theorem ndl_continue (cfg : NdlCfg) (alpha β₁ β₂ lam : R)
+    (w : LW R) (hndc : w.cues.Nodup) (hndo : w.outcomes.Nodup) (es es' : List (Event String String))
+    (hcfg : CfgOK cfg (mergedOutcomes w es).length)
     (hp : applyPolicyAll cfg.policy es = some es') (hfit : Fits32With w es) :
     ∃ r, ndlModel Generated.pyMagic Generated.pyVersion cfg alpha β₁ β₂ lam (some w) es = .ok (r, es.length) ∧
       ∀ o c, r.get o c = rwLearn (fun _ => alpha) β₁ β₂ lam (fun o c => w.get o c) es' o c :=
-  ndlModel_continue_eq_spec _ _ (by decide) (by decide) cfg hper hjob alpha β₁ β₂ lam w es es' hp hfit
+  ndlModel_continue_eq_spec _ _ (by decide) (by decide) cfg alpha β₁ β₂ lam w es es' hcfg hp hfit
 
 /-- the same for the CALL (`ndlCall` = `ndlModel` plus the behaviour on zero
     events, the function the correspondence run evaluates): every NON-EMPTY part -/
-theorem ndl_call_continue (cfg : NdlCfg) (hper : 2 ≤ cfg.perFile) (hjob : 1 ≤ cfg.perJob) (alpha β₁ β₂ lam : R)
-    (w : LW R) (es es' : List (Event String String)) (hne : es ≠ [])
+theorem ndl_call_continue (cfg : NdlCfg) (alpha β₁ β₂ lam : R)
+    (w : LW R) (hndc : w.cues.Nodup) (hndo : w.outcomes.Nodup)
+    (es es' : List (Event String String)) (hne : es ≠ [])
+    (hcfg : CfgOK cfg (mergedOutcomes w es).length)
     (hp : applyPolicyAll cfg.policy es = some es') (hfit : Fits32With w es) :
     ∃ r, ndlCall Generated.pyMagic Generated.pyVersion cfg alpha β₁ β₂ lam (some w) es = .ok (r, es.length) ∧
-      ∀ o c, r.get o c = rwLearn (fun _ => alpha) β₁ β₂ lam (fun o c => w.get o c) es' o c := by
-  rw [ndlCall_nonempty _ _ _ _ _ _ _ _ _ hne]
-  exact ndl_continue cfg hper hjob alpha β₁ β₂ lam w es es' hp hfit
+      ∀ o c, r.get o c = rwLearn (fun _ => alpha) β₁ β₂ lam (fun o c => w.get o c) es' o c :=
+  ndlCall_continue_eq_spec _ _ (by decide) (by decide) cfg alpha β₁ β₂ lam w es es' hne hcfg hp hfit
+
+/-- non-vacuity of `ndl_call_continue`: weights with labels `x` / `a, b`, a part
+    that brings the new outcome `y`; OpenMP, one outcome per job, two events per
+    file — all hypotheses instantiated, the theorem itself applied -/
+example :
+    ∃ r, ndlCall Generated.pyMagic Generated.pyVersion ⟨.error, .openmp, 1, 2⟩ (1 : ℤ) 2 3 5
+        (some ⟨["x"], ["a", "b"], #[10, 10]⟩) [⟨["b"], ["x", "y"]⟩, ⟨["a", "c"], ["y"]⟩] = .ok (r, 2) ∧
+      ∀ o c, r.get o c = rwLearn (fun _ => (1 : ℤ)) 2 3 5
+        (fun o c => (⟨["x"], ["a", "b"], #[10, 10]⟩ : LW ℤ).get o c)
+        [⟨["b"], ["x", "y"]⟩, ⟨["a", "c"], ["y"]⟩] o c :=
+  ndl_call_continue ⟨.error, .openmp, 1, 2⟩ 1 2 3 5 ⟨["x"], ["a", "b"], #[10, 10]⟩ (by decide) (by decide)
+    [⟨["b"], ["x", "y"]⟩, ⟨["a", "c"], ["y"]⟩] _ (by decide) (by decide +kernel) (by decide +kernel)
+    ⟨by decide +kernel, by decide +kernel, by decide +kernel, by decide +kernel⟩
+
+/-- … and the result is not trivial: row `x` moved, row `y` is new -/
+example :
+    (match ndlCall Generated.pyMagic Generated.pyVersion ⟨.error, .openmp, 1, 2⟩ (1 : ℤ) 2 3 5
+        (some ⟨["x"], ["a", "b"], #[10, 10]⟩) [⟨["b"], ["x", "y"]⟩, ⟨["a", "c"], ["y"]⟩] with
+     | .ok (w, k) => some (w.outcomes, w.cues, w.vals, k) | .error _ => none)
+      = some (["x", "y"], ["a", "b", "c"], #[-20, 0, -30,  10, 10, 10], 2) := by decide +kernel
 
 /-- **an EMPTY part is not a no-op for `ndl.ndl`** (outside the property's splits,
     which have non-empty parts; recorded because `dict_ndl` does return its input
     there): continuing from weights with at least one outcome on an event file
-    with zero events raises `IOError` with either method. -/
-theorem ndl_call_empty_part_raises (cfg : NdlCfg) (hper : 2 ≤ cfg.perFile) (hjob : 1 ≤ cfg.perJob)
-    (alpha β₁ β₂ lam : R) (w : LW R) (hw : w.outcomes ≠ []) (hfit : Fits32With w []) :
-    ndlCall Generated.pyMagic Generated.pyVersion cfg alpha β₁ β₂ lam (some w) [] = .error .io := by
-  obtain ⟨r, hr, _⟩ := ndl_continue cfg hper hjob alpha β₁ β₂ lam w [] [] (by cases cfg.policy <;> rfl) hfit
-  have hout : r.outcomes = w.outcomes := by
-    have := ndlModel_labels Generated.pyMagic Generated.pyVersion cfg alpha β₁ β₂ lam (some w) [] r 0 hr
-    have h2 := this.2
-    simp only [countNames] at h2
-    rw [h2]
-    show w.outcomes ++ List.filter _ (dedupKeepFirst []) = w.outcomes
-    simp [dedupKeepFirst]
-  cases hm : cfg.method with
-  | openmp => exact ndlCall_empty_openmp _ _ cfg hm alpha β₁ β₂ lam (some w) _ hr
-  | threading =>
-    rw [ndlCall_empty_threading _ _ cfg hm alpha β₁ β₂ lam (some w) r _ hr]
-    have : r.outcomes.isEmpty = false := by
-      rw [hout]; cases h : w.outcomes with
-      | nil => exact absurd h hw
-      | cons _ _ => rfl
-    simp [this]
+    with zero events raises `IOError` with either method (whenever the argument
+    checks pass). -/
+theorem ndl_call_empty_part_raises (cfg : NdlCfg) (hper : 2 ≤ cfg.perFile) (hperU : cfg.perFile < 4294967296)
+    (hjt : cfg.method = .threading → 1 ≤ cfg.perJob) (hjo : cfg.method = .openmp → cfg.perJob < 4294967296)
+    (alpha β₁ β₂ lam : R) (w : LW R) (hw : w.outcomes ≠ []) :
+    ndlCall Generated.pyMagic Generated.pyVersion cfg alpha β₁ β₂ lam (some w) [] = .error .io :=
+  ndlCall_nil_raises _ _ cfg alpha β₁ β₂ lam (some w) hper hperU hjt hjo (Or.inr ⟨w, rfl, hw⟩)
 
-/-- **two chained `ndl.ndl` calls = one call over the concatenation** (possibly
-    different methods, thread counts and chunk sizes in the two calls, later
-    part with new cues/outcomes) -/
-theorem ndl_chain_two (cfg₁ cfg₂ : NdlCfg) (h1 : 2 ≤ cfg₁.perFile) (j1 : 1 ≤ cfg₁.perJob)
-    (h2 : 2 ≤ cfg₂.perFile) (j2 : 1 ≤ cfg₂.perJob) (alpha β₁ β₂ lam : R)
-    (xs xs' ys ys' : List (Event String String))
+/-- **two chained `ndl.ndl` calls = one pass over the concatenation** (possibly
+    different methods and chunk sizes in the two calls, later part with new
+    cues/outcomes).  Preconditions, all on the INPUTS: both parts non-empty and
+    accepted by the policy of their call, legal chunking arguments w.r.t. the
+    number of distinct outcomes of `xs ++ ys`, and `Fits32 (xs ++ ys)`.
+    (Replaces a VACUOUS earlier version whose hypothesis `∀ w : LW R,
+    Fits32With w ys` no `ys` satisfies — take `w` with 2³² labels; the size
+    condition for the intermediate matrix is now derived, as in `chain_any_length`.) -/
+theorem ndl_chain_two (cfg₁ cfg₂ : NdlCfg) (alpha β₁ β₂ lam : R)
+    (xs xs' ys ys' : List (Event String String)) (hxne : xs ≠ []) (hyne : ys ≠ [])
+    (hc₁ : CfgOK cfg₁ (countNames (xs ++ ys)).2.length) (hc₂ : CfgOK cfg₂ (countNames (xs ++ ys)).2.length)
     (hx : applyPolicyAll cfg₁.policy xs = some xs') (hy : applyPolicyAll cfg₂.policy ys = some ys')
-    (fx : Fits32 xs)
-    (fy : ∀ w : LW R, Fits32With w ys) :
-    ∃ w₁ w₂, ndlModel Generated.pyMagic Generated.pyVersion cfg₁ alpha β₁ β₂ lam none xs = .ok (w₁, xs.length) ∧
-      ndlModel Generated.pyMagic Generated.pyVersion cfg₂ alpha β₁ β₂ lam (some w₁) ys = .ok (w₂, ys.length) ∧
-      ∀ o c, w₂.get o c = rwLearn (fun _ => alpha) β₁ β₂ lam (fun _ _ => (0 : R)) (xs' ++ ys') o c := by
-  obtain ⟨w₁, e1, a1⟩ := ndlModel_eq_spec Generated.pyMagic Generated.pyVersion (by decide) (by decide)
-    cfg₁ h1 j1 alpha β₁ β₂ lam xs xs' hx fx
-  obtain ⟨w₂, e2, a2⟩ := ndlModel_continue_eq_spec Generated.pyMagic Generated.pyVersion (by decide) (by decide)
-    cfg₂ h2 j2 alpha β₁ β₂ lam w₁ ys ys' hy (fy w₁)
-  refine ⟨w₁, w₂, e1, e2, ?_⟩
-  intro o c
-  rw [a2, rwLearn_append]
-  congr 1
-  funext o c
-  exact a1 o c
+    (fxy : Fits32 (xs ++ ys)) :
+    ∃ w₁ w₂, ndlCall Generated.pyMagic Generated.pyVersion cfg₁ alpha β₁ β₂ lam none xs = .ok (w₁, xs.length) ∧
+      ndlCall Generated.pyMagic Generated.pyVersion cfg₂ alpha β₁ β₂ lam (some w₁) ys = .ok (w₂, ys.length) ∧
+      ∀ o c, w₂.get o c = rwLearn (fun _ => alpha) β₁ β₂ lam (fun _ _ => (0 : R)) (xs' ++ ys') o c :=
+  ndlCall_chain_two _ _ (by decide) (by decide) cfg₁ cfg₂ alpha β₁ β₂ lam xs xs' ys ys' hxne hyne hc₁ hc₂ hx hy fxy
 
-/-- **inputs are not modified** — in the model every learner is a pure function
+/-- non-vacuity of `ndl_chain_two`: threading then OpenMP, the second part brings
+    a new cue and a new outcome; the theorem itself is applied -/
+example :
+    ∃ w₁ w₂, ndlCall Generated.pyMagic Generated.pyVersion ⟨.error, .threading, 2, 2⟩ (1 : ℤ) 2 3 5 none
+        [⟨["a", "b"], ["x"]⟩, ⟨["b"], ["x"]⟩, ⟨["a"], []⟩] = .ok (w₁, 3) ∧
+      ndlCall Generated.pyMagic Generated.pyVersion ⟨.dedup, .openmp, 1, 3⟩ (1 : ℤ) 2 3 5 (some w₁)
+        [⟨["c", "c", "a"], ["y", "x"]⟩] = .ok (w₂, 1) ∧
+      ∀ o c, w₂.get o c = rwLearn (fun _ => (1 : ℤ)) 2 3 5 (fun _ _ => 0)
+        ([⟨["a", "b"], ["x"]⟩, ⟨["b"], ["x"]⟩, ⟨["a"], []⟩] ++ [⟨["c", "a"], ["y", "x"]⟩]) o c :=
+  ndl_chain_two ⟨.error, .threading, 2, 2⟩ ⟨.dedup, .openmp, 1, 3⟩ 1 2 3 5
+    [⟨["a", "b"], ["x"]⟩, ⟨["b"], ["x"]⟩, ⟨["a"], []⟩] _ [⟨["c", "c", "a"], ["y", "x"]⟩] _
+    (by decide) (by decide) (by decide +kernel) (by decide +kernel) (by decide +kernel) (by decide +kernel)
+    ⟨by decide +kernel, by decide +kernel, by decide +kernel, by decide +kernel⟩
+
+/-- (definitional — NOT a property theorem) **inputs are not modified** — in the model every learner is a pure function
     of its `weights` argument, so the statement is the trivial one below. The
     real content of the clause (no aliasing inside numpy/xarray/deepcopy) cannot
     be expressed by a functional model and is decided only by the differential
@@ -228,53 +268,67 @@ theorem chain_policy_uniform (p : DupPolicy) (parts : List Part) (h : ∀ pt ∈
 /-- **chains of ANY length, ANY learner per part.**  `parts` is the list of
     (learner, events) as the harness runs them (`chainRun`: first call without
     weights, every later call with what the previous call returned, converted
-    as the learner needs it).  Preconditions — all on the INPUTS:
+    as the learner needs it; an `ndl.ndl` part is the CALL `ndlCall`).
+    Preconditions — all on the INPUTS:
     * `hp`: every part is accepted by the duplicate policy of its learner
       (otherwise the real call raises `ValueError`); `es'` is the concatenation
       of the policy-processed parts;
-    * `hl`: every `ndl.ndl` part has `events_per_temporary_file ≥ 2` and
-      `n_outcomes_per_job ≥ 1` (otherwise `ValueError`);
+    * `hl`: every `ndl.ndl` part has `2 ≤ events_per_temporary_file < 2³²`,
+      `1 ≤ n_outcomes_per_job` and, with OpenMP, (number of distinct outcomes of
+      the whole file) + `n_outcomes_per_job < 2³²` (`CfgOK`; outside the code
+      raises `ValueError` / `OverflowError` / `ZeroDivisionError`);
+    * `hne`: every `ndl.ndl` part has at least one event (on an empty part the
+      real call raises `IOError`: `chain_empty_ndl_part_raises`);
     * `hfit`: the whole file fits the 32-bit chunk format (events, distinct
       cues, distinct outcomes, cues/outcomes per event < 2^32).
     Conclusion: the chain succeeds, and the weight function its final state
     denotes (dict or matrix, 0 off the labels) is the Rescorla–Wagner
     specification from all-zero weights over `es'`, at every pair of names. -/
 theorem chain_any_length (alpha β₁ β₂ lam : R) (parts : List Part) (es' : List (Event String String))
-    (hp : chainPolicy parts = some es') (hl : ∀ pt ∈ parts, pt.1.ChunksOK)
+    (hp : chainPolicy parts = some es')
+    (hl : ∀ pt ∈ parts, pt.1.ChunksOK (countNames (allEvents parts)).2.length)
+    (hne : ∀ pt ∈ parts, pt.1.isNdl = true → pt.2 ≠ [])
     (hfit : Fits32 (allEvents parts)) :
     ∃ s, chainRun Generated.pyMagic Generated.pyVersion alpha β₁ β₂ lam none parts = .ok s ∧
       ∀ o c, stateGet s o c = rwLearn (fun _ => alpha) β₁ β₂ lam (fun _ _ => (0 : R)) es' o c :=
-  Pyndl.chain_any_length _ _ (by decide) (by decide) alpha β₁ β₂ lam parts es' hp hl hfit
+  Pyndl.chain_any_length _ _ (by decide) (by decide) alpha β₁ β₂ lam parts es' hp hl hne hfit
 
 /-- the same from GIVEN initial weights `s` (nothing, a dict or a matrix) whose
-    labels / keys are duplicate free (matrix) names from the lists `C`, `O`;
-    the size conditions are then: `C`, `O` have < 2^32 distinct names, and
-    every part has names from `C`, `O` and 32-bit counts (`PartFits`). -/
+    labels / keys are duplicate free (matrix) names from the lists `C`, `O`
+    (`StateOK`); the size conditions are then: `C`, `O` have < 2^32 distinct
+    names, and every part has names from `C`, `O` and 32-bit counts
+    (`PartFits`); `ChunksOK` w.r.t. the number of distinct names in `O`. -/
 theorem chain_any_length_from (C O : List String) (hC : (dedupKeepFirst C).length < 4294967296)
     (hO : (dedupKeepFirst O).length < 4294967296) (alpha β₁ β₂ lam : R)
     (parts : List Part) (s : Option (ChainState R)) (hs : StateOK C O s)
     (es' : List (Event String String)) (hp : chainPolicy parts = some es')
-    (hl : ∀ pt ∈ parts, pt.1.ChunksOK) (hfit : ∀ pt ∈ parts, PartFits C O pt.2) :
+    (hl : ∀ pt ∈ parts, pt.1.ChunksOK (dedupKeepFirst O).length)
+    (hne : ∀ pt ∈ parts, pt.1.isNdl = true → pt.2 ≠ [])
+    (hfit : ∀ pt ∈ parts, PartFits C O pt.2) :
     ∃ s', chainRun Generated.pyMagic Generated.pyVersion alpha β₁ β₂ lam s parts = .ok s' ∧
       ∀ o c, stateGet s' o c = rwLearn (fun _ => alpha) β₁ β₂ lam (stateGet s) es' o c :=
-  Pyndl.chain_any_length_stepwise _ _ (by decide) (by decide) C O hC hO alpha β₁ β₂ lam parts s hs es' hp hl hfit
+  Pyndl.chain_any_length_stepwise _ _ (by decide) (by decide) C O hC hO alpha β₁ β₂ lam parts s hs es' hp hl hne hfit
 
 /-- **the chain equals ONE call over the whole file** — of `ndl.ndl` (any
-    configuration `cfg` with legal chunk sizes) and of `dict_ndl` — when all
-    parts and the single call use the duplicate policy `p`.  Preconditions as
-    in `chain_any_length`; that the single call accepts the whole file follows
-    from the parts being accepted (`chain_policy_uniform`). -/
+    configuration `cfg` with legal chunking arguments; the CALL, so the file
+    must have an event: `hall`) and of `dict_ndl` — when all parts and the single
+    call use the duplicate policy `p`.  Preconditions as in `chain_any_length`;
+    that the single call accepts the whole file follows from the parts being
+    accepted (`chain_policy_uniform`). -/
 theorem chain_eq_single_call (alpha β₁ β₂ lam : R) (parts : List Part) (p : DupPolicy)
     (hpol : ∀ pt ∈ parts, pt.1.policy = p)
     (es' : List (Event String String)) (hp : chainPolicy parts = some es')
-    (hl : ∀ pt ∈ parts, pt.1.ChunksOK) (hfit : Fits32 (allEvents parts))
-    (cfg : NdlCfg) (hcp : cfg.policy = p) (hper : 2 ≤ cfg.perFile) (hjob : 1 ≤ cfg.perJob) :
+    (hl : ∀ pt ∈ parts, pt.1.ChunksOK (countNames (allEvents parts)).2.length)
+    (hne : ∀ pt ∈ parts, pt.1.isNdl = true → pt.2 ≠ [])
+    (hfit : Fits32 (allEvents parts)) (hall : allEvents parts ≠ [])
+    (cfg : NdlCfg) (hcp : cfg.policy = p) (hcfg : CfgOK cfg (countNames (allEvents parts)).2.length) :
     ∃ s w W, chainRun Generated.pyMagic Generated.pyVersion alpha β₁ β₂ lam none parts = .ok s ∧
-      ndlModel Generated.pyMagic Generated.pyVersion cfg alpha β₁ β₂ lam none (allEvents parts)
+      ndlCall Generated.pyMagic Generated.pyVersion cfg alpha β₁ β₂ lam none (allEvents parts)
         = .ok (w, (allEvents parts).length) ∧
       dictNdl p (fun _ => alpha) β₁ β₂ lam [] (allEvents parts) = some W ∧
       ∀ o c, stateGet s o c = w.get o c ∧ stateGet s o c = wdAbs W o c :=
-  Pyndl.chain_eq_single_call _ _ (by decide) (by decide) alpha β₁ β₂ lam parts p hpol es' hp hl hfit cfg hcp hper hjob
+  Pyndl.chain_eq_single_call _ _ (by decide) (by decide) alpha β₁ β₂ lam parts p hpol es' hp hl hne hfit hall
+    cfg hcp hcfg
 
 /-- **the split does not matter**: two splits of the same file — different
     numbers of parts, cut positions and learners per part —, all with the
@@ -283,13 +337,30 @@ theorem chain_split_irrelevant (alpha β₁ β₂ lam : R) (parts₁ parts₂ : 
     (hpol₁ : ∀ pt ∈ parts₁, pt.1.policy = p) (hpol₂ : ∀ pt ∈ parts₂, pt.1.policy = p)
     (hsame : allEvents parts₁ = allEvents parts₂)
     (es' : List (Event String String)) (hacc : applyPolicyAll p (allEvents parts₁) = some es')
-    (hl₁ : ∀ pt ∈ parts₁, pt.1.ChunksOK) (hl₂ : ∀ pt ∈ parts₂, pt.1.ChunksOK)
+    (hl₁ : ∀ pt ∈ parts₁, pt.1.ChunksOK (countNames (allEvents parts₁)).2.length)
+    (hl₂ : ∀ pt ∈ parts₂, pt.1.ChunksOK (countNames (allEvents parts₁)).2.length)
+    (hne₁ : ∀ pt ∈ parts₁, pt.1.isNdl = true → pt.2 ≠ [])
+    (hne₂ : ∀ pt ∈ parts₂, pt.1.isNdl = true → pt.2 ≠ [])
     (hfit : Fits32 (allEvents parts₁)) :
     ∃ s₁ s₂, chainRun Generated.pyMagic Generated.pyVersion alpha β₁ β₂ lam none parts₁ = .ok s₁ ∧
       chainRun Generated.pyMagic Generated.pyVersion alpha β₁ β₂ lam none parts₂ = .ok s₂ ∧
       ∀ o c, (stateGet s₁ o c : R) = stateGet s₂ o c :=
   Pyndl.chain_split_irrelevant _ _ (by decide) (by decide) alpha β₁ β₂ lam parts₁ parts₂ p hpol₁ hpol₂ hsame
-    es' hacc hl₁ hl₂ hfit
+    es' hacc hl₁ hl₂ hne₁ hne₂ hfit
+
+/-- **error direction: an `ndl.ndl` part with ZERO events makes the chain raise
+    `IOError`** — wherever it stands (`pre` ran to the state `s₁`) and whatever
+    follows —, with OpenMP always, with threading as soon as the state handed to
+    it has an outcome label; the part's other arguments being legal. -/
+theorem chain_empty_ndl_part_raises (alpha β₁ β₂ lam : R) (s : Option (ChainState R))
+    (pre post : List Part) (s₁ : Option (ChainState R))
+    (hpre : chainRun Generated.pyMagic Generated.pyVersion alpha β₁ β₂ lam s pre = .ok s₁)
+    (cfg : NdlCfg) (hper : 2 ≤ cfg.perFile) (hperU : cfg.perFile < 4294967296)
+    (hjt : cfg.method = .threading → 1 ≤ cfg.perJob) (hjo : cfg.method = .openmp → cfg.perJob < 4294967296)
+    (hout : cfg.method = .openmp ∨ ∃ w, toNdlArg s₁ = some w ∧ w.outcomes ≠ []) :
+    chainRun Generated.pyMagic Generated.pyVersion alpha β₁ β₂ lam s (pre ++ (.ndl cfg, []) :: post)
+      = .error .io :=
+  chainRun_empty_ndl_part_raises _ _ alpha β₁ β₂ lam s pre post s₁ hpre cfg hper hperU hjt hjo hout
 
 /-! non-vacuity: a chain of FOUR parts over ℤ with four different learners —
 `dict_ndl` returning a dict, `ndl.ndl` openmp (dict → matrix hand-over, new
@@ -337,13 +408,14 @@ example :
     satisfiable: the example instantiates them completely -/
 example :
     ∃ s w W, chainRun Generated.pyMagic Generated.pyVersion (1 : ℤ) 2 3 5 none exParts = .ok s ∧
-      ndlModel Generated.pyMagic Generated.pyVersion ⟨.error, .openmp, 1, 2⟩ (1 : ℤ) 2 3 5 none (allEvents exParts)
+      ndlCall Generated.pyMagic Generated.pyVersion ⟨.error, .openmp, 1, 2⟩ (1 : ℤ) 2 3 5 none (allEvents exParts)
         = .ok (w, (allEvents exParts).length) ∧
       dictNdl .error (fun _ => (1 : ℤ)) 2 3 5 [] (allEvents exParts) = some W ∧
       ∀ o c, stateGet s o c = w.get o c ∧ stateGet s o c = wdAbs W o c :=
-  chain_eq_single_call 1 2 3 5 exParts .error (by decide) (allEvents exParts) (by decide +kernel) (by decide)
-    ⟨by decide +kernel, by decide +kernel, by decide +kernel, by decide +kernel⟩
-    ⟨.error, .openmp, 1, 2⟩ rfl (by decide) (by decide)
+  chain_eq_single_call 1 2 3 5 exParts .error (by decide) (allEvents exParts) (by decide +kernel)
+    (by decide +kernel) (by decide)
+    ⟨by decide +kernel, by decide +kernel, by decide +kernel, by decide +kernel⟩ (by decide)
+    ⟨.error, .openmp, 1, 2⟩ rfl (by decide +kernel)
 
 /-- … and so are those of `chain_split_irrelevant` (4 parts vs 2 parts) -/
 example :
@@ -351,7 +423,34 @@ example :
       chainRun Generated.pyMagic Generated.pyVersion (1 : ℤ) 2 3 5 none exParts' = .ok s₂ ∧
       ∀ o c, stateGet s₁ o c = stateGet s₂ o c :=
   chain_split_irrelevant 1 2 3 5 exParts exParts' .error (by decide) (by decide) (by decide +kernel)
-    (allEvents exParts) (by decide +kernel) (by decide) (by decide)
+    (allEvents exParts) (by decide +kernel) (by decide +kernel) (by decide +kernel) (by decide) (by decide)
     ⟨by decide +kernel, by decide +kernel, by decide +kernel, by decide +kernel⟩
+
+/-- non-vacuity of `chain_any_length_from`: the last three parts of `exParts`
+    from GIVEN weights (a matrix with labels `x` / `a, b`, as the first part
+    leaves them), `C`, `O` = the names of the file -/
+example :
+    ∃ s', chainRun Generated.pyMagic Generated.pyVersion (1 : ℤ) 2 3 5
+        (some (.matrix ⟨["x"], ["a", "b"], #[10, 10]⟩)) (exParts.drop 1) = .ok s' ∧
+      ∀ o c, stateGet s' o c = rwLearn (fun _ => (1 : ℤ)) 2 3 5
+        (stateGet (some (.matrix ⟨["x"], ["a", "b"], #[10, 10]⟩))) (allEvents (exParts.drop 1)) o c :=
+  chain_any_length_from ["a", "b", "c", "d"] ["x", "y", "z"] (by decide +kernel) (by decide +kernel) 1 2 3 5
+    (exParts.drop 1) (some (.matrix ⟨["x"], ["a", "b"], #[10, 10]⟩))
+    ⟨by decide, by decide, by decide, by decide⟩ (allEvents (exParts.drop 1)) (by decide +kernel)
+    (by decide +kernel) (by decide)
+    (fun pt hpt => by
+      simp only [exParts, List.drop_succ_cons, List.drop_zero, List.mem_cons, List.not_mem_nil, or_false] at hpt
+      rcases hpt with rfl | rfl | rfl <;> exact ⟨by decide +kernel, by decide +kernel, by decide +kernel⟩)
+
+/-- non-vacuity of `chain_empty_ndl_part_raises`: after the first part of
+    `exParts` (state: a dict with the outcome `x`) an empty threading part —
+    the chain raises `IOError`, whatever follows -/
+example :
+    chainRun Generated.pyMagic Generated.pyVersion (1 : ℤ) 2 3 5 none
+      (exParts.take 1 ++ (.ndl ⟨.error, .threading, 1, 2⟩, []) :: exParts.drop 1) = .error .io :=
+  chain_empty_ndl_part_raises 1 2 3 5 none (exParts.take 1) (exParts.drop 1)
+    (some (.dict [("x", [("a", 10), ("b", 10)])])) (by rfl) ⟨.error, .threading, 1, 2⟩
+    (by decide) (by decide) (by decide) (by decide)
+    (Or.inr ⟨lwFromDict [("x", [("a", 10), ("b", 10)])], rfl, by decide +kernel⟩)
 
 end Pyndl.C03
